@@ -8,6 +8,7 @@ CounterSet::insert / Bencher-level set_counter replacing only the counter of its
 The two-level composition used while descending the tree (child.overwrite(parent), then
 runner.overwrite(entry)) is checked as a three-level resolution over symbolic options."""
 from lib.unit import *
+from units import entry_common as E
 
 OPT = "src/benchmark/options.rs"
 COLL = "src/counter/collection.rs"
@@ -209,7 +210,9 @@ def build(S: Sources) -> Unit:
     return Unit(
         property_id="C15",
         verus=[],
-        kani=KaniSpec(injections={OPT: KANI_OPT, COLL: KANI_COLL, DIVAN: KANI_DIVAN}, harnesses=hs),
+        kani=[KaniSpec(injections={OPT: KANI_OPT, COLL: KANI_COLL, DIVAN: KANI_DIVAN}, harnesses=hs),
+              E.entry_kani("C15", only={"ignore_decision", "thread_counts_two", "thread_counts_one", "runner_over_entry_both", "runner_over_entry_entry_only"},
+                           tiers={})],
         undecided_clauses=[
             "command-line flag vs DIVAN_* environment variable vs builder call populating the runner's options (clap argument parsing in Divan::config_with_args / cli.rs): not under contract",
             "attribute syntax -> BenchOptions (proc macro in macros/src/attr_options.rs): not under contract",
